@@ -41,7 +41,7 @@ def config_for(draw, scheme):
     else:
         cfg["param_identifier_size"] = draw(st.sampled_from(ID_SIZES))
     if scheme in ("CGKO06.SSE1", "CGKO06.SSE2"):
-        cfg["param_l"] = draw(st.sampled_from([16, 32]))
+        cfg["param_l"] = draw(st.sampled_from([16, 32, 48, 64]))  # wide keyword fields: the PRP halves exceed one digest
     if scheme == "CGKO06.SSE1":
         cfg["param_s"] = draw(st.sampled_from([128, 256, 512]))
         cfg["param_dictionary_size"] = draw(st.sampled_from([0, 3, 64]))
@@ -146,7 +146,10 @@ def run_case(case, res=None):
             edb1 = sch.EDBSetup(key1, db)
             edb1b = sch.EDBSetup(key1, db)
             edb2 = sch.EDBSetup(key2, db)
-            raw1, raw1b, raw2 = edb1.serialize(), edb1b.serialize(), edb2.serialize()
+            # a brand-new scheme instance (what a restarted client builds) encrypting the same (key, DB) once more
+            sch_new = loader.SSEScheme(dict(cfg))
+            edb1c = sch_new.EDBSetup(loader.SSEKey.deserialize(key1.serialize(), loader.SSEConfig(dict(cfg))), db)
+            raw1, raw1b, raw2, raw1c = edb1.serialize(), edb1b.serialize(), edb2.serialize(), edb1c.serialize()
             kws = list(db.keys())
             absent = [hashlib.sha256(b"c04absent%d" % i + kws[0]).digest()[:len(kws[0])] for i in range(2)]
             absent = [a if a[0] else b"\x01" + a[1:] for a in absent]
@@ -156,7 +159,7 @@ def run_case(case, res=None):
             raise stage_violation(scheme, "setup/tokens", e)
 
     # (a) substring absence
-    hay = [("EDB", raw1), ("EDB(second setup)", raw1b), ("EDB(second key)", raw2)] + [("token", t) for t in toks1 + toks2]
+    hay = [("EDB", raw1), ("EDB(second setup)", raw1b), ("EDB(second key)", raw2), ("EDB(fresh instance)", raw1c)] + [("token", t) for t in toks1 + toks2]
     total = sum(len(h) for _, h in hay)
     needles = [("keyword", w) for w in kws]
     if scheme != "CGKO06.SSE2":
@@ -185,6 +188,11 @@ def run_case(case, res=None):
     if inter:
         raise Violation("%s: %d ciphertext blocks are shared by two setups of the same (key, DB)" % (scheme, len(inter)),
                         "%s:blocks_shared_between_setups" % scheme)
+    b1c = blocks_of(cipher_values(scheme, S.edb_payload(raw1c)))
+    inter = set(b1) & set(b1c)
+    if inter:
+        raise Violation("%s: %d ciphertext blocks are shared by the setups of two scheme instances for the same (key, DB)" % (scheme, len(inter)),
+                        "%s:blocks_shared_between_instances" % scheme)
     if scheme != "CGKO06.SSE2" and b1 and raw1 == raw1b:
         raise Violation("%s: two setups of the same (key, DB) are byte-identical" % scheme, "%s:identical_setups" % scheme)
     # (d) keyed-ness of labels and tokens
